@@ -42,6 +42,8 @@ func c10Scenarios(thorough bool) []c10Scenario {
 			pre := WorldCfg{InitialChain: 1003, StartHeight: 1002, SafeDelayMS: 2000, RemoveMissing: rm}
 			out = append(out, c10Scenario{"header sync below the start block over the 1000 boundary, clean stop" + tag, histParams{Prop: "C10", Cfg: pre, Boot: "cold"},
 				[]string{"settle", "ext:1", "settle", "restart:raw"}})
+			out = append(out, c10Scenario{"header sync below the start block over the 1000 boundary, the peer repeats its headers messages" + tag, histParams{Prop: "C10", Cfg: pre, Boot: "cold"},
+				[]string{"ans", "duph:0", "settle", "duph:0", "duph:1", "ext:1", "settle", "restart:raw"}})
 		}
 		if thorough {
 			out = append(out, c10Scenario{"reorg before the first save, back and forth" + tag, histParams{Prop: "C10", Cfg: s, Boot: "cold"},
